@@ -473,8 +473,9 @@ class History:
         for name, lang in sorted(langs.items()):
             sect = PFX + name
             check_language_path_precedence(ctx, builtin_py, files_read, sect, overrides if sect == tsect else None, lang, d2)
-        base.precedence_oracle(ctx, "process-history", builtin_py, files_read, tsect, overrides, lctx.config.sections(),
-                               short(tsect), d2)
+        base.precedence_oracle(ctx, "process-history", builtin_py,
+                               [{tsect: f[tsect]} if tsect in f else {} for f in files_read], tsect, overrides,
+                               lctx.config.sections(), short(tsect), d2)
         # the configuration of the non-target sections, as ctx.config has them
         for sect in sects:
             if sect != tsect:
@@ -484,7 +485,7 @@ class History:
         ctx.count("contexts_observed")
 
     def describe(self):
-        return {"ops": [o[:600] for o in self.ops]}
+        return {"ops": list(self.ops)}
 
     def line(self, builtin_wire):
         return "proc " + builtin_wire + " " + " ".join(self.ops)
@@ -608,3 +609,463 @@ def stream_process_history(ctx, drv, rng):
                      "a builder reports other values than the same calls report in a fresh process (an earlier builder of the process shows through)",
                      dict(d, builder_calls=h.builders[b], differing=diff,
                           in_this_process={k: str(seen.get(k))[:800] for k in diff}, in_a_fresh_process={k: str(fresh.get(k))[:800] for k in diff}))
+
+
+# ------------------------------------------------------------------------------------------------------
+# (b) the C++ shorthand by file, by API override, by the command line, and for a language that is not the target
+# ------------------------------------------------------------------------------------------------------
+def stream_shorthand_routes(ctx, drv, rng):
+    import contextlib
+    import io
+    import yaml
+    from nunavut.cli import _make_parser
+    from nunavut.cli.runners import ArgparseRunner
+    from nunavut.lang import LanguageContextBuilder
+    sec, csec = PFX + "cpp", PFX + "c"
+    builtin_wire, builtin = base.builtin_sections_wire(), base.builtin_sections_py()
+    defaults = builtin.get(sec, {}).get("defaults", {})
+    groups = [g for g, body in defaults.items() if isinstance(body, dict)]
+    extras = [None, {"allocator_type": "file::alloc"}, {"enable_serialization_asserts": True, "zz_new": 1},
+              {"ctor_convention": "uses-leading-allocator", "allocator_type": "a::b"}, {"std_flavor": "mine", "cast_format": "X"}]
+    d = ctx.scratch / "routes"
+    d.mkdir(exist_ok=True)
+    seq = [0]
+
+    def write(doc):
+        seq[0] += 1
+        p = d / ("r%d.yaml" % seq[0])
+        p.write_text(yaml.safe_dump(doc, sort_keys=False), encoding="utf-8")
+        return p
+
+    def observe(f):
+        try:
+            return base.wire(dict(f().get_options()))
+        except SystemExit:
+            return "not-a-cli-choice"
+        except Exception as e:  # noqa
+            return hist_exc_kind(e)
+
+    lines, expect = [], []
+    for S in groups + ["c++20", "nope"]:
+        for extra in extras:
+            f0 = {sec: {"options": extra}} if extra else None
+            fS = {sec: {"options": {"std": S}}}
+            pre = [write(f0)] if f0 else []
+
+            def r_file():
+                return (LanguageContextBuilder(include_experimental_languages=True).set_target_language("cpp")
+                        .add_config_files(*(pre + [write(fS)])).create().get_target_language())
+
+            def r_api():
+                return (LanguageContextBuilder(include_experimental_languages=True).set_target_language("cpp")
+                        .add_config_files(*pre).set_target_language_configuration_override("options", {"std": S})
+                        .create().get_target_language())
+
+            def r_cli():
+                argv = ["--list-configuration", "--experimental-languages", "--target-language", "cpp", "--language-standard", S]
+                for q in pre:
+                    argv += ["--configuration", str(q)]
+                with contextlib.redirect_stderr(io.StringIO()):
+                    args = _make_parser().parse_args(argv)
+                runner = ArgparseRunner.__new__(ArgparseRunner)
+                runner._args = args
+                return runner._create_language_context().get_target_language()
+
+            def r_nontarget():
+                return (LanguageContextBuilder(include_experimental_languages=True).set_target_language("c")
+                        .add_config_files(*(pre + [write(fS)])).create().get_language("cpp"))
+
+            seen = {"file": observe(r_file), "api": observe(r_api), "cli": observe(r_cli), "non-target": observe(r_nontarget)}
+            ctx.case(("shorthand-route", S, json.dumps(extra, sort_keys=True)), True)
+            ctx.count("shorthand_routes_compared")
+            vals = {k: v for k, v in seen.items() if v != "not-a-cli-choice"}
+            if len(set(vals.values())) != 1:
+                ctx.fail({"kind": "shorthand-route-dependence"},
+                         "the options after a C++ language-standard shorthand depend on whether the shorthand came from a file, the API, "
+                         "the command line, or was read for a non-target language",
+                         {"std": S, "earlier_file": None if f0 is None else base.wire(f0), "options_by_route": {k: v[:1500] for k, v in seen.items()}})
+            # the model, through the process machine: file route, API route, non-target route
+            w0 = ["W/0/" + base.wire(f0)] if f0 else []
+            a0 = "0," if f0 else ""
+            for route, ops in (
+                ("file", ["B/0/1", "L/0/" + sec] + w0 + ["W/1/" + base.wire(fS), "A/0/" + a0 + "1", "C/0/0", "R/0/0/to/std", "R/0/0/tv/options"]),
+                ("api", ["B/0/1", "L/0/" + sec] + w0 + (["A/0/0"] if f0 else []) + ["O/0/options/" + base.wire({"std": S}), "C/0/0", "R/0/0/to/std", "R/0/0/tv/options"]),
+                ("non-target", ["B/0/1", "L/0/" + csec] + w0 + ["W/1/" + base.wire(fS), "A/0/" + a0 + "1", "C/0/0", "R/0/0/to/std", "R/0/0/lv/" + sec + "/options"]),
+            ):
+                lines.append("proc " + builtin_wire + " " + " ".join(ops))
+                expect.append((route, S, extra, seen[route]))
+    if drv:
+        for (route, S, extra, got), m in zip(expect, drv.ask(lines, timeout=600)):
+            ctx.traces += 1
+            toks = m.split(" ")
+            last = toks[-1] if toks else ""
+            model = last[1:] if last.startswith("v{") else last
+            if model != got:
+                ctx.disagree("shorthand-route/" + route, {"std": S, "earlier_options": extra}, model[:1500], got[:1500])
+
+
+# ------------------------------------------------------------------------------------------------------
+# (c) YAML documents as text
+# ------------------------------------------------------------------------------------------------------
+class _NoModel(Exception):
+    pass
+
+
+def str_keys(v, seen=None):
+    seen = set() if seen is None else seen
+    if isinstance(v, dict):
+        if id(v) in seen:
+            return True
+        seen.add(id(v))
+        return all(isinstance(k, str) and str_keys(x, seen) for k, x in v.items())
+    return True
+
+
+def node_wire(loader, node):
+    """the document as the TEXT has it: mapping nodes keep repeated keys, aliases are written out again"""
+    import yaml
+    if isinstance(node, yaml.ScalarNode):
+        return "S" + base.enc_atom(base.atom_any(loader.construct_object(node, deep=True)))
+    if isinstance(node, yaml.SequenceNode):
+        return "[" + ",".join(base.enc_atom(base.atom_any(loader.construct_object(x, deep=True))) for x in node.value) + "]"
+    out = []
+    for k, v in node.value:
+        if k.tag == "tag:yaml.org,2002:merge":
+            raise _NoModel("merge key")
+        if not isinstance(k, yaml.ScalarNode):
+            raise _NoModel("complex key")
+        kk = loader.construct_object(k, deep=True)
+        out.append(base.enc_atom(str(kk)) + "=" + node_wire(loader, v))
+    return "{" + ";".join(out) + "}"
+
+
+def gen_yaml_text(rng):
+    """random YAML text: null / non-mapping documents and sections, repeated keys at every level, anchors and aliases"""
+    r = rng.random()
+    if r < 0.04:
+        return rng.choice(["", "null\n", "- a\n- b\n", "text\n", "42\n", "{}\n"])
+    names = ["nunavut.lang.c"] * 4 + ["nunavut.lang.cpp"] * 4 + ["nunavut.lang.py"] * 2 + ["nunavut.lang.zz9"] * 2 + ["bad name", "nunavut.lang.1x"]
+    lines, map_anchors, n_anchor = [], [], [0]
+
+    def leaf():
+        return rng.choice(["1", "2", "x", "~", "''", "true", ".h", "[1, 2]", "c++17-pmr"])
+
+    def mapping(indent, depth):
+        """lines of a block mapping"""
+        out = []
+        for _ in range(rng.randint(1, 3)):
+            k = rng.choice(["a", "b", "a", "std"])
+            if depth > 0 and rng.random() < 0.3:
+                if map_anchors and rng.random() < 0.4:
+                    out.append(" " * indent + "%s: *%s" % (k, rng.choice(map_anchors)))
+                else:
+                    anchor = ""
+                    if rng.random() < 0.4:
+                        n_anchor[0] += 1
+                        anchor = " &m%d" % n_anchor[0]
+                    sub = mapping(indent + 2, depth - 1)
+                    out.append(" " * indent + "%s:%s" % (k, anchor))
+                    out.extend(sub)
+                    if anchor:
+                        map_anchors.append(anchor[2:])
+            else:
+                out.append(" " * indent + "%s: %s" % (k, leaf()))
+        return out
+
+    for _ in range(rng.randint(1, 3)):
+        name = rng.choice(names)
+        key = name if " " not in name else "'%s'" % name
+        r = rng.random()
+        if r < 0.06:
+            lines.append(key + ":")
+            continue
+        if r < 0.10:
+            lines.append(key + ": " + rng.choice(["[1]", "3", "text"]))
+            continue
+        if map_anchors and r < 0.25:
+            lines.append(key + ": *" + rng.choice(map_anchors))
+            continue
+        anchor = ""
+        if rng.random() < 0.25:
+            n_anchor[0] += 1
+            anchor = " &m%d" % n_anchor[0]
+        lines.append(key + ":" + anchor)
+        body = []
+        for _ in range(rng.randint(1, 3)):
+            k = rng.choice(["options", "options", "extension", "named_values", "new_key"])
+            if k in ("options", "named_values"):
+                rr = rng.random()
+                if map_anchors and rr < 0.3:
+                    body.append("  %s: *%s" % (k, rng.choice(map_anchors)))
+                elif rr < 0.36:
+                    body.append("  %s:" % k)
+                else:
+                    a2 = ""
+                    if rng.random() < 0.35:
+                        n_anchor[0] += 1
+                        a2 = " &m%d" % n_anchor[0]
+                    body.append("  %s:%s" % (k, a2))
+                    body.extend(mapping(4, 1))
+                    if a2:
+                        map_anchors.append(a2[2:])
+            else:
+                body.append("  %s: %s" % (k, leaf()))
+        lines.extend(body)
+        if anchor:
+            map_anchors.append(anchor[2:])
+    return "\n".join(lines) + "\n"
+
+
+def yaml_text_case(ctx, name, text, pre_wire, vlines, vexp, hruns):
+    """one YAML text through the real code; appends the model requests"""
+    import yaml
+    from nunavut.lang._config import LanguageConfig
+    # the real code
+    cfg = LanguageConfig()
+    cfg.update(copy.deepcopy(PRELOAD))
+    try:
+        doc = yaml.load(text, Loader=yaml.SafeLoader)
+        syntax_ok = True
+    except yaml.YAMLError:
+        doc, syntax_ok = None, False
+    try:
+        cfg.update_from_yaml_string(text)
+        ans = "ok " + base.wire(cfg.sections())
+    except yaml.YAMLError:
+        ans = "err:yaml"
+    except Exception as e:  # noqa
+        ans = base.cfg_exc_kind(e)
+    # the same once more with a document object we hold on to (object identity is observable only then)
+    heap = None
+    if syntax_ok and isinstance(doc, dict) and str_keys(doc) and ans.startswith("ok"):
+        cfg = LanguageConfig()
+        cfg.update(copy.deepcopy(PRELOAD))
+        try:
+            heap = base.heap_of([cfg.sections(), doc])
+            doc_before = base.wire(doc)
+            cfg.update(doc)
+            if "ok " + base.wire(cfg.sections()) != ans:
+                ctx.fail({"kind": "update-differs-from-update_from_yaml_string"}, "update(yaml.load(text)) and update_from_yaml_string(text) differ",
+                         {"text": text, "update_from_yaml_string": ans[:1500], "update": base.wire(cfg.sections())[:1500]})
+        except base.Cyclic:
+            heap = None
+    ctx.case(("yaml-text", text), ans.startswith("ok") and ("*" in text or "&" in text or len(text) > 30))
+    ctx.count("yaml_text_" + (ans if ans.startswith("err") else "ok"))
+    if "*" in text and ans.startswith("ok"):
+        ctx.count("yaml_text_with_alias_ok")
+    # the model: constructor (repeated keys) + update
+    if syntax_ok:
+        try:
+            loader = yaml.SafeLoader(text)
+            node = loader.get_single_node()
+            y = "Sn:" if node is None else node_wire(loader, node)
+            vlines.append("ycfg " + pre_wire + " " + y)
+            vexp.append((name, text, ans))
+            if node is not None and isinstance(doc, dict):
+                vlines.append("ynorm " + y)
+                try:
+                    vexp.append((name, text, "ok " + base.wire(doc)))
+                except base.Cyclic:
+                    vlines.pop()
+        except _NoModel:
+            ctx.count("yaml_text_outside_model")
+    # objects: nothing of the loaded document may be part of the configuration, the document is left alone
+    if heap is not None and ans.startswith("ok"):
+        enc, idmap, _keep = heap
+        shared = base.reach_initial(cfg.sections(), idmap)
+        # addresses below the configuration before the update belong to the configuration; the document starts after them
+        ndoc0 = idmap[id(doc)]
+        leaked = [a for a in shared if a >= ndoc0]
+        if leaked:
+            ctx.fail({"kind": "configuration-shares-dict-with-document", "via": "yaml-text"},
+                     "after update_from_yaml_string the configuration contains a dict object of the loaded document",
+                     {"text": text, "document_objects_inside_configuration": leaked})
+        if base.wire(doc) != doc_before:
+            ctx.fail({"kind": "source-mutated", "when": "own-merge", "via": "yaml-text"}, "update() modified the loaded document",
+                     {"text": text, "before": doc_before, "after": base.wire(doc)})
+        hruns.append((name, text, enc, ndoc0, ans, ",".join(map(str, shared)) or "-", base.wire(doc)))
+        # two places of the configuration that came from ONE aliased mapping must be independent afterwards
+        secs = cfg.sections()
+        snapshot = base.wire(secs)
+        names2 = [s for s in secs if isinstance(secs[s], dict)]
+        if names2:
+            s0 = names2[0]
+            cfg.update({s0: {"options": {"zz_probe": 1}, "named_values": {"zz_probe": 1}}})
+            after = copy.deepcopy(secs)
+            for k2 in ("options", "named_values"):
+                if isinstance(after[s0].get(k2), dict):
+                    after[s0][k2].pop("zz_probe", None)
+            ctx.count("yaml_alias_independence_checks")
+            stray = [p for p in base.all_paths(secs) if p[-1] == "zz_probe" and not (p[0] == s0 and len(p) == 3 and p[1] in ("options", "named_values"))]
+            if stray:
+                ctx.fail({"kind": "alias-leak", "via": "yaml-text"},
+                         "two places of the configuration that came from one aliased YAML mapping are still one object: an update of one shows in the other",
+                         {"text": text, "updated": [s0, "options/named_values", "zz_probe"], "also_changed": [list(p) for p in stray]})
+
+
+PRELOAD = {"nunavut.lang.c": {"extension": ".h", "options": {"a": 0, "std": "c11", "keep": True}, "named_values": {"true": "T"}},
+           "nunavut.lang.cpp": {"extension": ".hpp", "options": {"std": "c++14"}}}
+
+
+def stream_yaml_text(ctx, drv, rng):
+    import yaml
+    from nunavut.lang._config import LanguageConfig
+    from nunavut.lang import LanguageContextBuilder
+    texts = []
+    f = common.VERIF / "corpus" / "C13" / "yaml_docs.json"
+    if f.exists():
+        texts += [(c["name"], c["text"]) for c in json.loads(f.read_text())]
+    ncorpus = len(texts)
+    for i in range(250 if ctx.quick else 4000):
+        texts.append(("random%d" % i, gen_yaml_text(rng)))
+    pre_wire = base.wire(PRELOAD)
+    vlines, vexp, hruns = [], [], []
+    for name, text in texts:
+        yaml_text_case(ctx, name, text, pre_wire, vlines, vexp, hruns)
+    if drv:
+        for (name, text, g), m in zip(vexp, drv.ask(vlines, timeout=600)):
+            ctx.traces += 1
+            if m != g:
+                ctx.disagree("yaml-text", {"name": name, "text": text}, m[:2000], g[:2000])
+        hl = ["hmerge 1 %s @0 %d" % (enc, ndoc0) for (_, _, enc, ndoc0, _, _, _) in hruns]
+        for (name, text, enc, ndoc0, ans, shared, docw), m in zip(hruns, drv.ask(hl, timeout=600)):
+            ctx.traces += 1
+            g = "%s %s %s" % (ans, shared, docw)
+            if m != g:
+                ctx.disagree("yaml-text/heap", {"name": name, "text": text, "heap": enc, "document_at": ndoc0}, m[:2000], g[:2000])
+    ctx.extra["yaml_text_domain"] = {"corpus": ncorpus, "random": len(texts) - ncorpus}
+    yaml_alias_builder_check(ctx)
+
+
+def yaml_alias_builder_check(ctx):
+    """through a real builder: a file in which the C and C++ sections alias ONE options mapping; an override for the target
+    must not show in the other language"""
+    from nunavut.lang import LanguageContextBuilder
+    d = ctx.scratch / "yamlalias"
+    d.mkdir(exist_ok=True)
+    p = d / "alias.yaml"
+    p.write_text("nunavut.lang.c:\n  options: &o\n    zz_shared: 1\nnunavut.lang.cpp:\n  options: *o\n", encoding="utf-8")
+    lctx = (LanguageContextBuilder(include_experimental_languages=True).set_target_language("c").add_config_files(p)
+            .set_target_language_configuration_override("options", {"zz_shared": 2, "zz_only_c": True}).create())
+    got = (lctx.get_target_language().get_option("zz_shared"), lctx.get_language("cpp").get_option("zz_shared"),
+           lctx.get_language("cpp").get_option("zz_only_c", "absent"))
+    ctx.count("yaml_alias_builder_checks")
+    if got != (2, 1, "absent"):
+        ctx.fail({"kind": "alias-leak", "via": "builder"},
+                 "an override for the target language shows in another language whose options came from the same aliased YAML mapping",
+                 {"file": p.read_text(), "override": {"zz_shared": 2, "zz_only_c": True}, "c.zz_shared, cpp.zz_shared, cpp.zz_only_c": list(map(str, got))})
+
+
+# ------------------------------------------------------------------------------------------------------
+# replay of a recorded failing input on the tree under check
+# ------------------------------------------------------------------------------------------------------
+def replay_history(ctx, ops):
+    """Perform a recorded history (`proc` op tokens) on the real code and re-evaluate the predicates on every context."""
+    import yaml
+    from nunavut.lang import LanguageContextBuilder
+    builtin_py = base.builtin_sections_py()
+    sects = list(builtin_py.keys())
+    d = ctx.scratch / "replay_hist"
+    d.mkdir(exist_ok=True)
+    content, builders, descs, files_read, overrides, contexts, dead = {}, {}, {}, {}, {}, {}, set()
+    log = []
+    for tok in ops:
+        f = tok.split("/")
+        try:
+            if f[0] == "W":
+                p = int(f[1])
+                content[p] = base.parse_wire("/".join(f[2:]))
+                (d / ("f%d.yaml" % p)).write_text(yaml.safe_dump(content[p], sort_keys=False, allow_unicode=True), encoding="utf-8")
+            elif f[0] == "B":
+                b = int(f[1])
+                builders[b] = LanguageContextBuilder(include_experimental_languages=f[2] == "1")
+                descs[b] = {"builder": b, "include_experimental_languages": f[2] == "1", "target": "c", "calls": [], "creates": 0}
+                files_read[b], overrides[b] = [], {}
+                dead.discard(b)
+            elif int(f[1]) in dead:
+                continue
+            elif f[0] == "L":
+                b = int(f[1])
+                builders[b].set_target_language(None if f[2] == "!" else f[2])
+                descs[b]["target"] = "c" if f[2] == "!" else short(f[2])
+            elif f[0] == "A":
+                b = int(f[1])
+                ps = [] if f[2] == "-" else [int(x) for x in f[2].split(",")]
+                descs[b]["calls"].append(["files", ["f%d.yaml" % p for p in ps], [base.wire(content[p]) for p in ps]])
+                files_read[b].extend(copy.deepcopy(content[p]) for p in ps)
+                builders[b].add_config_files(*[d / ("f%d.yaml" % p) for p in ps])
+            elif f[0] == "O":
+                b = int(f[1])
+                key = f[2] if not f[2].startswith("%") else bytes.fromhex(f[2][1:]).decode("utf-8")
+                val = None if f[3] == "!" else base.parse_wire("/".join(f[3:]))
+                descs[b]["calls"].append(["override", key, None if val is None else base.wire(val)])
+                builders[b].set_target_language_configuration_override(key, copy.deepcopy(val))
+                if val is not None:
+                    overrides[b][key] = val
+            elif f[0] == "C":
+                b, j = int(f[1]), int(f[2])
+                contexts[(b, j)] = builders[b].create()
+                descs[b]["creates"] += 1
+            elif f[0] == "R":
+                b, j = int(f[1]), int(f[2])
+                lctx = contexts[(b, j)]
+                if f[3] in ("nm", "lv", "lo"):
+                    lctx.get_supported_languages()
+        except Exception as e:  # noqa
+            log.append({"op": tok[:200], "raised": hist_exc_kind(e)})
+            if f[0] != "W":
+                dead.add(int(f[1]))
+    for (b, j), lctx in sorted(contexts.items()):
+        if b in dead:
+            continue
+        d2 = {"history": {"ops": list(ops)}, "builder": b, "context": j}
+        try:
+            langs = lctx.get_supported_languages()
+            env = make_env(lctx)
+        except Exception as e:  # noqa
+            log.append({"context": [b, j], "raised": hist_exc_kind(e)})
+            continue
+        tsect = PFX + lctx.get_target_language().name
+        check_access_paths_agree(ctx, lctx, d2, env)
+        for name, lang in sorted(langs.items()):
+            check_language_path_precedence(ctx, builtin_py, files_read[b], PFX + name, overrides[b] if PFX + name == tsect else None, lang, d2)
+        base.precedence_oracle(ctx, "process-history", builtin_py, [{tsect: x[tsect]} if tsect in x else {} for x in files_read[b]],
+                               tsect, overrides[b], lctx.config.sections(), short(tsect), d2)
+        for sect in sects:
+            if sect != tsect:
+                check_config_section(ctx, builtin_py, files_read[b], sect, lctx.config.sections(), d2)
+        if j == descs[b]["creates"] - 1:
+            seen = json.loads(json.dumps(observe_all(lctx), sort_keys=True))
+            fresh = fresh_observation(descs[b])
+            if fresh != seen:
+                ctx.fail({"kind": "history-dependence"}, "a builder reports other values than the same calls report in a fresh process",
+                         dict(d2, differing=sorted(k for k in set(fresh) | set(seen) if fresh.get(k) != seen.get(k))))
+    print(json.dumps({"contexts": len(contexts), "raised": log,
+                      "failures": [{"key": x["key"], "what": x["what"],
+                                    "detail": {k: str(v)[:300] for k, v in x["replay"].items() if k != "history"}} for x in ctx.failures[:8]]}))
+    return 1 if ctx.failures else 0
+
+
+def replay(ctx, rp):
+    """returns None when the recorded input is not one of this module's"""
+    import random
+    if isinstance(rp.get("history"), dict) and "ops" in rp["history"]:
+        return replay_history(ctx, rp["history"]["ops"])
+    if "builder_calls" in rp and "in_a_fresh_process" in rp:
+        return None
+    if "text" in rp:
+        vl, ve, hr = [], [], []
+        yaml_text_case(ctx, "replay", rp["text"], base.wire(PRELOAD), vl, ve, hr)
+        print(json.dumps({"text": rp["text"], "real_code_says": ve[0][2][:1500] if ve else None,
+                          "failures": [{"key": x["key"], "what": x["what"]} for x in ctx.failures]}))
+        return 1 if ctx.failures else 0
+    if "file" in rp and "override" in rp:
+        yaml_alias_builder_check(ctx)
+        print(json.dumps({"failures": [{"key": x["key"], "what": x["what"], "detail": x["replay"]} for x in ctx.failures]}))
+        return 1 if ctx.failures else 0
+    if "options_by_route" in rp:
+        stream_shorthand_routes(ctx, None, random.Random(0))
+        print(json.dumps({"failures": [{"key": x["key"], "std": x["replay"].get("std"), "options_by_route": x["replay"].get("options_by_route")}
+                                       for x in ctx.failures[:4]]})[:3000])
+        return 1 if ctx.failures else 0
+    return None
